@@ -273,6 +273,38 @@ def c10(ctx):
                    "composer_trace.ndjson", histories=n, key_of=composer_key, corrupt=corrupt_composer)
 
 
+def c14(ctx):
+    ctx.rule = ("(1) every distinct document of the composer model (reachable within MaxLen validated patches; key, "
+                "service, also-known-as lists and further members) is concretized, handed to "
+                "patch.PatchesFromDocument, the derived patches are compared with the specification's DocToPatches, "
+                "validated, byte round-tripped with accessor agreement, applied to the empty document by the real "
+                "composer and the projected result compared with the document (TLC checks RoundTrip on the model); "
+                "the same document with an id must be refused. (2) every patch of the alphabet is built through its "
+                "public constructor, must validate, survive FromBytes(Bytes()) and apply as specified. (3) "
+                "PatchCodec.tla: action value x value-member sets of size <= 2; FromBytes accepts exactly the shapes "
+                "with a supported action and that action's own value member.")
+    ctx.assumptions = COMPOSER_ASSUME + ["further members have ordinary names (o1, o2): no JSON-pointer or quoting "
+                                         "metacharacters, as the statement says"]
+    docs_ov = {"MaxLen": 3} if ctx.tier == "quick" else dict(COMPOSER_BIG, MaxLen=4)
+    _, s1 = ctx.tlc_pipe("MC_Composer.tla", "MC_ComposerDocs.cfg", ["roundtrip-replay"], overrides=docs_ov,
+                         label="documents -> patches -> document", timeout=3000)
+    ed_ov = {"MaxLen": 2, "ListLens": "{1}"} if ctx.tier == "quick" else dict(COMPOSER_BIG, MaxLen=2, ListLens="{1}")
+    ctx.tlc_pipe("MC_Composer.tla", "MC_Composer.cfg", ["constructors-replay"], overrides=ed_ov,
+                 label="patch constructors, validation, byte round trip", timeout=3000)
+    _, s3 = ctx.tlc_pipe("MC_PatchCodec.tla", "MC_PatchCodec.cfg", ["codec-replay"], workers=2,
+                         label="patch byte shapes")
+
+    def wrong_doc(rec):
+        rec["doc"]["aka"] = rec["doc"]["aka"] + [1, 2]
+
+    def wrong_accept(rec):
+        rec["accept"] = not rec["accept"]
+
+    ctx.negctl_replay(["roundtrip-replay"], s1["_first_edge"], wrong_doc)
+    ctx.negctl_replay(["codec-replay"], s3["_first_edge"], wrong_accept)
+    ctx.exhaustive = True
+
+
 def c12_composer(ctx):
     only = "input-mutated,error-with-state,panic"
     for ov, label in composer_runs(ctx)[:2]:
@@ -417,5 +449,6 @@ CHECKS = {
     "C10": c10,
     "C11": c11,
     "C13": c13,
+    "C14": c14,
     "C12": c12,
 }
